@@ -135,6 +135,36 @@ pub unsafe fn set_external_session_globals(ptr: *const std::ffi::c_void) {
     EXTERNAL_SESSION_GLOBALS.store(ptr as *mut Mutex<SessionGlobals>, Ordering::Release);
 }
 
+// Verification hook (off by default): under `--cfg mimium_rs_verif_shuttle` the session mutex is a
+// shuttle mutex so that a controlled scheduler decides every interleaving of interner operations,
+// and a preemption point follows the unlock (shuttle never yields between an unlock and the next
+// sync operation, a preemptive OS does).
+#[cfg(mimium_rs_verif_shuttle)]
+shuttle::lazy_static! {
+    static ref VERIF_SESSION_GLOBALS: shuttle::sync::Mutex<SessionGlobals> =
+        shuttle::sync::Mutex::new(SessionGlobals {
+            symbol_interner: StringInterner::new(),
+            expr_storage: SlotMap::with_key(),
+            type_storage: SlotMap::with_key(),
+            loc_storage: BTreeMap::new(),
+        });
+}
+#[cfg(mimium_rs_verif_shuttle)]
+pub fn with_session_globals<R, F>(f: F) -> R
+where
+    F: FnOnce(&mut SessionGlobals) -> R,
+{
+    let r = {
+        let mut guard = VERIF_SESSION_GLOBALS
+            .lock()
+            .unwrap_or_else(|_| panic!("Failed to acquire lock on SESSION_GLOBALS"));
+        f(&mut guard)
+    };
+    shuttle::thread::yield_now();
+    r
+}
+
+#[cfg(not(mimium_rs_verif_shuttle))]
 pub fn with_session_globals<R, F>(f: F) -> R
 where
     F: FnOnce(&mut SessionGlobals) -> R,
